@@ -22,6 +22,10 @@ def run(chk):
     import policy_common as pc
     pc.run_policy_check(chk, "C14", "proj_P14", {"p_metric": 0.9, "p_log": 0.7, "p_no_retry": 0.2}, oracle_pid="C14P", theorems_ok=ok,
                         cov_key="breaker_events", n_quick=200, n_thorough=3000)
+    if ok:
+        import source_tie
+        source_tie.report(chk, source_tie.loop_tie(chk), "loop",
+                          "scripted call sequences (random, abort sentinels and sweeps): no property violation found")
 
 
 def replay(path):
